@@ -31,6 +31,7 @@
 package refread
 
 import (
+	"sort"
 	"strconv"
 	"strings"
 	"unicode"
@@ -123,6 +124,38 @@ type Model struct {
 	seen  map[string]struct{}
 }
 
+// Clone returns an independent copy of the model.
+func (m *Model) Clone() *Model {
+	c := New()
+	for k, v := range m.Units {
+		c.Units[k] = v
+	}
+	for k := range m.seen {
+		c.seen[k] = struct{}{}
+	}
+	return c
+}
+
+// LineLimits returns the line-length limits a conforming reader may have,
+// as far as they make a difference for the given texts: MaxLine (the
+// bufio.Scanner default) and the length of every longer line, ascending. A
+// reader with limit L stops with an I/O error in front of the first line
+// longer than L; the last candidate therefore never stops.
+func LineLimits(texts ...string) []int {
+	seen := map[int]bool{MaxLine: true}
+	out := []int{MaxLine}
+	for _, t := range texts {
+		for _, raw := range RawLines(t) {
+			if len(raw) > MaxLine && !seen[len(raw)] {
+				seen[len(raw)] = true
+				out = append(out, len(raw))
+			}
+		}
+	}
+	sort.Ints(out)
+	return out
+}
+
 // New returns an empty model.
 func New() *Model {
 	return &Model{Units: map[UnitKey]UnitMeta{}, seen: map[string]struct{}{}}
@@ -133,6 +166,9 @@ type Options struct {
 	// StopAtTooLong makes Read stop in front of the first line longer than
 	// MaxLine (the behaviour of a reader whose line buffer is limited).
 	StopAtTooLong bool
+	// LineLimit > 0 makes Read stop in front of the first line longer than
+	// LineLimit bytes instead (a reader with a larger line buffer).
+	LineLimit int
 	// MaxRecords > 0 makes Read stop after the line that produced the
 	// MaxRecords-th record (a caller that abandons the file there). The
 	// whole line is still applied, so Records may hold a few more.
@@ -283,10 +319,14 @@ func (m *Model) Read(fileName, text string, opt Options) Outcome {
 		lineNo := idx + 1
 		if len(raw) > MaxLine && out.TooLongLine == 0 {
 			out.TooLongLine = lineNo
-			if opt.StopAtTooLong {
+			if opt.StopAtTooLong && opt.LineLimit == 0 {
 				out.Stopped = true
 				break
 			}
+		}
+		if opt.LineLimit > 0 && len(raw) > opt.LineLimit {
+			out.Stopped = true
+			break
 		}
 		out.Stats.Lines++
 		line := strings.TrimSuffix(raw, "\r")
